@@ -30,6 +30,7 @@ the real code by the independent IR replay of engine `recoder` on every run); `s
 the same oracle (concatenation of the slices == input).
 -/
 import BV.Lemmas.RecoderSim
+import BV.Lemmas.RecoderPos
 import BV.Props.C18
 
 namespace BV.Props.C14
@@ -114,6 +115,20 @@ theorem recode_preserves_replay (w : WordOracle) (e : Env) (i0 i1 : Bytes) (cmds
                 fun _ => ⟨mkPair_rep i0 i1, by simpa [initSt] using hlen, by simpa [initSt] using hlen, rfl, hdc⟩⟩
             have hsim := stepAll_sim w (windowSize e.lgwin) (i0 ++ i1) h h32 e hE cmds _ s' _ t' h0 wf hs ht
             exact ⟨by rw [← hd]; exact hsim.out, by rw [← hd]; exact hsim.nbe⟩
+
+/-- **position bookkeeping for EVERY command array** (no well-formedness, no payload hypothesis, any block
+splits, any dictionary oracle): after the loop, `num_bytes_encoded` has advanced by exactly the number of
+meta-block bytes consumed (`input.len() − mb_len`), and the input iterator holds exactly the unconsumed rest.
+In particular the position never runs ahead of the input, whatever the commands claim. -/
+theorem recoder_position_every_array (e : Env) (i0 i1 : Bytes) (cmds : List Cmd) (dc : List Int) (nbe ls cs ds : Nat)
+    (s' : St) (h32 : (i0 ++ i1).length < 2 ^ 32)
+    (hm : stepAll e (initSt i0 i1 nbe dc ls cs ds) cmds = some s') :
+    s'.nbe + s'.mbLen = nbe + (i0 ++ i1).length ∧ s'.iter.len = s'.mbLen ∧ s'.mbLen ≤ (i0 ++ i1).length := by
+  have hlen : (mkPair i0 i1).len = (i0 ++ i1).length := by simp [Pair.len, mkPair]
+  have h0 : Pos (i0 ++ i1) (initSt i0 i1 nbe dc ls cs ds) :=
+    ⟨by simpa [initSt, hlen] using mkPair_rep i0 i1, rfl, by simp [initSt, hlen]⟩
+  obtain ⟨p, e1⟩ := stepAll_position (i0 ++ i1) h32 e cmds _ s' h0 hm
+  exact ⟨by rw [e1]; simp [initSt, hlen], p.iterLen, p.le⟩
 
 /-- PAYLOAD HYPOTHESIS (the only unproved link): the RFC decoder, run on the encoder's command array with
 the encoder's history, reproduces the meta-block input -/
